@@ -3,7 +3,7 @@
     string stay extracted inductives.  No Extract Constant / Extract Inductive of our own. *)
 From Coq Require Import ZArith List Bool String.
 From Coq Require Extraction ExtrOcamlBasic.
-From Mx Require ModInt Expr Simp EvalAbs X86Types X86Dis Ppc.
+From Mx Require ModInt Expr Simp EvalAbs X86Types X86Dis Ppc Wf.
 From MxGen Require X86Tables PpcTables.
 Extraction Language OCaml.
 Extraction "model.ml" ModInt.binop_apply ModInt.unop_apply ModInt.cmp_apply ModInt.in_rangeb
@@ -13,4 +13,5 @@ Extraction "model.ml" ModInt.binop_apply ModInt.unop_apply ModInt.cmp_apply ModI
   Simp.simp Simp.simp1
   EvalAbs.eval_expr EvalAbs.eval_instr EvalAbs.simpF EvalAbs.pool_set
   X86Dis.dis X86Dis.flow_flags X86Dis.getnextflow X86Dis.getdstflow X86Tables.x86_tables
-  Ppc.claimants Ppc.reencode PpcTables.ppc_classes.
+  Ppc.claimants Ppc.reencode PpcTables.ppc_classes
+  Wf.violated.
